@@ -372,29 +372,7 @@ def container_checks(chk, ctx, decs):
     # encodings (array: tagged values; table: short_string(key) ++ tagged
     # value in sorted order) -- shared with C04.X / C04.T
     tables.check_table_entry_order(chk, ctx, 'C03.C')
-    emod = prog.module('encode')
-    fa = emod.functions.get('field_array')
-    pol = tables.ArmPolicy(prog, {fa.qualname})
-    it, outs = codec.run(prog, fa, None, pol)
-    loops = [l for l in it.loops if l['func'] is fa]
-    okk = False
-    if len(loops) == 1:
-        app = tables.appended_in_loop(it, loops[0])
-        shapes = [items for runs in app.values() for items in runs]
-        okk = bool(shapes) and all(
-            len(items) == 1 and isinstance(items[0], Sym) and
-            items[0].op == 'enc' and
-            items[0].args[0] == 'encode.encode_table_value' and
-            isinstance(items[0].args[1], Sym) and
-            items[0].args[1].op == 'elem' for items in shapes)
-    if not loops:
-        comps = [c for c in it.comps if c['func'] is fa]
-        okk = len(comps) == 1 and len(comps[0]['elts']) == 1 and \
-            isinstance(comps[0]['elts'][0], Sym) and \
-            comps[0]['elts'][0].op == 'enc' and \
-            comps[0]['elts'][0].args[0] == 'encode.encode_table_value' and \
-            isinstance(comps[0]['elts'][0].args[1], Sym) and \
-            comps[0]['elts'][0].args[1].op == 'elem'
+    okk = tables.array_items_encoded(ctx)
     chk.ob('C03.C', 'array writer element', okk,
            'each list item is appended as encode_table_value(item)',
            site='pamqp/encode.py::field_array')
